@@ -47,6 +47,12 @@ func genUnmarshalCases(r *rng, n int, emit func(string, ...string), forceOpts fu
 			g.declare(sub, false)
 			data = append([]byte(pick(sub, []string{"\r\n", "xx", "\n", "WARC", "junk junk "})), g.serialize()...)
 			stat("unm-class", "junk+clean")
+		case k < 7: // hostile Content-Length
+			g.declare(sub, false)
+			g.declLen = pick(sub, []string{"9223372036854775807", "9223372036854775808", "99999999999999999999", "-1", "-513", "-9223372036854775808",
+				"268435456", "4294967296", "00000000000000000005", "1e3", "0x10", " 12"})
+			data = g.serialize()
+			stat("unm-class", "hostile-length")
 		default:
 			g.declare(sub, false)
 			data = mutateRecord(sub, g.serialize())
